@@ -320,16 +320,15 @@ pub fn c01_enc_op<S: Src>(s: &mut S, class: u8, oi: u8, as_ident: bool) {
     let (n, a) = draw_legal(s, class, oi, addr, avr8l);
     let kpos = last_k(n, &a);
     let as_ident = as_ident && kpos.is_some();
-    let ctx = Ctx {
+    let ctx = Ctx::with(
         avr8l,
-        s_tab: if as_ident { Tab::Equ } else { Tab::None },
-        s_val: match kpos {
+        if as_ident { Tab::Equ } else { Tab::None },
+        match kpos {
             Some(i) => k_value(&a[i]),
             None => 0,
         },
-        pc: None,
-        alias: None,
-    };
+        None,
+    );
     let mut argv = build_args(n, &a, if as_ident { kpos } else { None });
     let expect = ref_encode(&op, &a[..n], addr, avr8l);
     chk!(s, expect.is_some(), "oracle self-check: reference accepts the drawn legal tuple");
@@ -467,16 +466,15 @@ pub fn c04_rej_op<S: Src>(s: &mut S, oi: u8, wide: bool) {
         Some(_) => s.below(3), // 0 literal, 1 bound symbol, 2 unbound symbol
         None => 0,
     };
-    let ctx = Ctx {
+    let ctx = Ctx::with(
         avr8l,
-        s_tab: if ident_mode == 1 { Tab::Equ } else { Tab::None },
-        s_val: match kpos {
+        if ident_mode == 1 { Tab::Equ } else { Tab::None },
+        match kpos {
             Some(i) => k_value(&a[i]),
             None => 0,
         },
-        pc: None,
-        alias: None,
-    };
+        None,
+    );
     let mut argv = build_args(n, &a, if ident_mode != 0 { kpos } else { None });
     let expect = if ident_mode == 2 { None } else { ref_encode(&op, &a[..n], addr, avr8l) };
     let res = argv.with(|v| process(&op, v, addr, &ctx));
@@ -552,13 +550,7 @@ pub fn c03_rel_op<S: Src>(s: &mut S, oi: u8, spelling: u8, full_addr: bool) {
         // labels are u32 word addresses
         s.assume(target >= 0 && target <= u32::MAX as i64);
     }
-    let ctx = Ctx {
-        avr8l: false,
-        s_tab: if spelling == 3 { Tab::Label } else { Tab::None },
-        s_val: target,
-        pc: Some(addr as i64),
-        alias: None,
-    };
+    let ctx = Ctx::with(false, if spelling == 3 { Tab::Label } else { Tab::None }, target, Some(addr as i64));
     let a: [A; 3] = if kind == 2 {
         [A::K(bit as i64), A::K(target), A::K(0)]
     } else {
